@@ -16,7 +16,9 @@ import time
 import vcommon as V
 
 sys.path.insert(0, os.path.join(V.VERIF, "gen"))
+sys.path.insert(0, os.path.join(V.VERIF, "translator"))
 import C10gen as G  # noqa
+import c10_xpath as TXP  # noqa
 
 WORK = os.path.join(V.VERIF, "work", "C10")
 
@@ -124,9 +126,11 @@ def has_desc(case):
     return any(".//" in ic["sel"] or any(".//" in f for f in ic["fields"]) for ic in case["ics"])
 
 
-def cls_multi_key_scope(case):
-    """F28/F29 class: some keyref's scope element contains (descendant-or-self) two or more elements on which the
-    referenced key is declared"""
+def cls_multi_key_scope(case, same_depth=False):
+    """F28/F29 class: some keyref's scope element contains (descendant-or-self) two elements on which the referenced key
+    is declared and NEITHER OF WHICH CONTAINS THE OTHER (two different child scopes: F29); with same_depth they also sit
+    at the same depth (the ValueStore of (constraint, depth) is reused: F28).  Nested scopes of a recursive element on one
+    chain are NOT in the class: there the tables are handed up level by level and the implementation must be exact."""
     byid = {ic["id"]: ic for ic in case["ics"]}
     for ic in case["ics"]:
         if ic["kind"] != "r":
@@ -136,9 +140,13 @@ def cls_multi_key_scope(case):
             continue
         for node, d, _ in walk(case["tree"]):
             if node[0] == "c" and node[1] == ic["elem"]:
-                n = sum(1 for k, _, _ in walk(node) if k[0] == "c" and k[1] == key["elem"])
-                if n >= 2:
-                    return True
+                ks = [(dd, pp) for k, dd, pp in walk(node) if k[0] == "c" and k[1] == key["elem"]]
+                for a in range(len(ks)):
+                    for b in range(a + 1, len(ks)):
+                        pa, pb = ks[a][1], ks[b][1]
+                        comparable = pa == pb[:len(pa)] or pb == pa[:len(pb)]
+                        if not comparable and (not same_depth or ks[a][0] == ks[b][0]):
+                            return True
     return False
 
 
@@ -246,10 +254,16 @@ def gen_cases(ctx):
         r = rng.random()
         size = rng.choice([6, 10, 14, 20, 30])
         desc = rng.random() < 0.5
-        if r < 0.15:
+        if r < 0.12:
             case = G.gen_case_siblings(rng)
             kind = "sib"
-        elif r < 0.8:
+        elif r < 0.22:
+            case = G.gen_case_recursive(rng)
+            kind = "recur"
+        elif r < 0.32:
+            case = G.gen_case_fieldcard(rng)
+            kind = "fcard"
+        elif r < 0.82:
             case = G.gen_case2(rng, size=size, allow_desc=desc)
             kind = "rec"
         else:
@@ -290,6 +304,124 @@ def gen_cases(ctx):
     return out
 
 
+XP_NAMES = ["a", "b", "c1", "l0", "child", "attribute", "and", "or", "div", "mod", "x-y", "x.y", "_u", "\u00e9t", "node", "text", "A1"]
+XP_PREFIXES = ["t", "o", "p", "q", "r"]
+
+
+def h4(sx):
+    return "".join("%04X" % ord(c) for c in sx) or "-"
+
+
+def gen_axp(rng):
+    """abstract syntax of a grammatical selector / field expression (driver.ml.in: xptext / xpexp)"""
+    def nm():
+        r = rng.random()
+        pre = rng.choice(XP_PREFIXES) if rng.random() < 0.93 else "z"
+        if r < 0.2:
+            return "*"
+        if r < 0.38:
+            return h4(pre) + ":*"
+        if r < 0.6:
+            return h4(pre) + ":" + h4(rng.choice(XP_NAMES))
+        return h4(rng.choice(XP_NAMES))
+    paths = []
+    for _ in range(rng.choice([1, 1, 2, 3])):
+        toks = ["D"] if rng.random() < 0.3 else []
+        n = rng.choice([1, 1, 2, 2, 3, 4])
+        for j in range(n):
+            r = rng.random()
+            if j == n - 1 and r < 0.3:
+                toks.append("a%d=%s" % (rng.random() < 0.3, nm()))
+            elif r < 0.45 and j == 0 and rng.random() < 0.5:
+                toks.append("c0=" + h4(rng.choice(XP_PREFIXES)) + ":*")      # aimed at the F35 class
+            elif r < 0.15:
+                toks.append(".")
+            else:
+                toks.append("c%d=%s" % (rng.random() < 0.25, nm()))
+        paths.append(" ".join(toks))
+    return " | ".join(paths)
+
+
+def xp_correspondence(ctx, xh, xm):
+    rng = ctx.rng
+    if ctx.replay:
+        reqs = [json.load(open(ctx.replay))["request"]]
+        absr = [None]
+    else:
+        n = 260 if ctx.tier == "quick" else 6000
+        absr = []
+        texts = []
+        for _ in range(n):
+            a = gen_axp(rng)
+            ws = rng.choice(["-", "-", "0020", "00200009", "000A", "000D0020"])
+            absr.append((rng.choice("sf"), a))
+            texts.append("xptext %s %s" % (ws, a))
+        _, to, _ = run_bin(xm, texts)
+        reqs = ["xp %s %s" % (k, t.split()[1] if t.startswith("t ") and len(t.split()) > 1 else "-") for (k, _), t in zip(absr, to)]
+        # malformed / arbitrary short strings
+        alpha = [".", "/", "|", "@", "*", ":", "a", "b", "t", "(", ")", "[", "1", "$", "'", "<", "!", ",", "+", "-", "=", " ", "\t",
+                 "\u00e9", "::", "//", "child", "attribute", "t:", ". ", "and", "_", "#", "\u0001", "..", ".5"]
+        for _ in range(n):
+            sx = "".join(rng.choice(alpha) for _ in range(rng.randrange(0, 7)))
+            absr.append(None)
+            reqs.append("xp %s %s" % (rng.choice("sf"), h4(sx)))
+        # literal witness of F35 (first step NCName:* followed by a step) in front
+        reqs.insert(0, "xp s " + h4("t:*/a"))
+        absr.insert(0, ("s", "c0=%s:* c0=%s" % (h4("t"), h4("a"))))
+    os.environ["C10_FXNS"] = os.environ.get("C10_FXNS_REPLAY", "0") if ctx.replay else "0"
+    _, impl, err = run_bin(xh, reqs)
+    if len(impl) != len(reqs):
+        ctx.violation("harness-crash", {"what": "xp requests: harness crashed or lost lines", "stderr": err[-1500:], "request": reqs[0]})
+        return
+    exp = [None] * len(reqs)
+    if not ctx.replay:
+        _, eo, _ = run_bin(xm, ["xpexp %s %s" % a if a else "xpexp s ." for a in absr])
+        exp = [e if a else None for e, a in zip(eo, absr)]
+        # which reader does /repo have?  decided by the literal witness of F35
+        w_ok = exp[0] is not None and impl[0] == exp[0].split(" ", 1)[1]
+        if w_ok:
+            os.environ["C10_FXNS"] = "1"
+            ctx.note("XercesXPath::parseExpression carries the repair of F35: model switch fxns = true")
+    _, model, err2 = run_bin(xm, reqs)
+    if len(model) != len(reqs):
+        ctx.violation("model-crash", {"what": "xp requests: model driver crashed", "stderr": err2[-1500:]}, no_input=True)
+        return
+    nf35 = 0
+    nbad = 0
+    st = {"xp-grammar": 0, "xp-malformed": 0, "xp-accepted": 0, "xp-rejected": 0, "xp-F35": 0}
+    for r, i, m, e in zip(reqs, impl, model, exp):
+        ctx.count()
+        st["xp-grammar" if e else "xp-malformed"] += 1
+        st["xp-accepted" if i.startswith("p") else "xp-rejected"] += 1
+        if i.startswith("p ") or i.startswith("e "):
+            ctx.distinct(r)
+        want = None
+        if e:
+            cls, want = e.split(" ", 1)
+            if cls == "nwf":
+                want = None                     # an undeclared prefix: outside the oracle, implementation = model only
+        if want is not None and i != want:
+            if cls == "nsfirst" and i == m == "e NoSelectionOfRoot" and ctx.find_known("F35"):
+                nf35 += 1
+                st["xp-F35"] += 1
+                continue
+            nbad += 1
+            if nbad <= 3:
+                ctx.violation("xpath-reader", {"request": r, "impl": i, "model": m, "expected": want, "fxns": os.environ["C10_FXNS"],
+                                               "what": "XercesXPath does not read a grammatical selector/field expression as the "
+                                                       "location paths it denotes"})
+            continue
+        if i != m:
+            nbad += 1
+            if nbad <= 3:
+                ctx.violation("xpath-correspondence", {"request": r, "impl": i, "model": m, "expected": want, "fxns": os.environ["C10_FXNS"],
+                                                       "what": "XercesXPath and the extracted reader model (Parse10.v) differ on this expression"})
+    if nf35:
+        ctx.known_finding("F35", "a path whose first step is NCName:* followed by a further step (t:*/a) is rejected with "
+                                 "XPath_NoSelectionOfRoot (%d generated expressions + literal witness)" % (nf35 - 1))
+    ctx.coverage.setdefault("xpath_reader", {}).update(st)
+
+
 MATCHER_FINDINGS = ("F14", "F26", "F30")
 FX_ON = False
 
@@ -326,7 +458,8 @@ def attribute(case, ik, sk, fk, nested):
     if same_verdict(fk, sk):
         return [matcher_label()]
     d = fk ^ sk
-    if cls_multi_key_scope(case) and d <= {"KeyRefNotFound"}:
+    if d <= {"KeyRefNotFound"} and (cls_multi_key_scope(case, same_depth=True) if "KeyRefNotFound" in fk
+                                    else cls_multi_key_scope(case)):
         lab = ["F28" if "KeyRefNotFound" in fk else "F29"]
         if fk != ik:
             lab.append(matcher_label())
@@ -365,7 +498,11 @@ def run(ctx):
                        "fields select nodes of simple type only (cases where the extracted Spec reports FieldNotSimple are "
                        "dropped and counted under input_distribution.excluded-field-not-simple)"]
     ctx.build_lib()
-    ok, out, failed = ctx.prove(["Base", "C10"], ["theories/C10/Properties_C10.vo", "theories/C10/Extract_C10.vo"],
+    try:
+        TXP.generate()          # Gen/GenC10XPath.v from XercesXPath.cpp / XMLChar.cpp (tables of the XPath reader model)
+    except Exception as e:      # noqa
+        ctx.note("translator c10_xpath failed: %s" % e)
+    ok, out, failed = ctx.prove(["Base", "Gen", "C10"], ["theories/C10/Properties_C10.vo", "theories/C10/Extract_C10.vo"],
                                 props_file="theories/C10/Properties_C10.v")
     proof_broken = not ok
     if proof_broken:
@@ -401,6 +538,13 @@ def run(ctx):
                                                   "switch for both" % ok, "request": probe[0]}, no_input=True)
     elif os.environ.get("C10_FX_REPLAY"):
         os.environ["C10_FX"] = os.environ["C10_FX_REPLAY"]
+    # ---- the XPath reader: extracted Parse10 (scanner + parseExpression) vs XercesXPath on grammatical expressions in many
+    # spellings (oracle: Parse10.expect_xpath of the abstract syntax, proved equal to the parser's answer at token level) and
+    # on short malformed strings (same answer / same error code)
+    if not (ctx.replay and not json.load(open(ctx.replay)).get("request", "").startswith("xp ")):
+        xp_correspondence(ctx, xh, xm)
+        if ctx.replay:
+            return
     # F34: literal witness only (the model's path type has no self step inside a path): selector c1/./l0
     if not ctx.replay:
         f34 = mk([ic(0, "k", 0, "c1/./l0", ["."])], C(0, {}, [C(1, {}, [L(0, "a"), L(0, "a")])]))
